@@ -514,6 +514,23 @@ Proof.
     apply MI_set_stage; exact Hinv.
 Qed.
 
+Lemma mstep_rx_refused st y b st' : MI st -> mstep st (MRxRefused y b) = MOk st' -> MI st'.
+Proof.
+  intros Hinv H. unfold mstep in H. unfold drcv in H. cbv zeta in H.
+  destruct (stage st y) as [[tg o]|]; [|discriminate].
+  destruct tg as [| |raw]; try discriminate.
+  destruct (d_fwd (dsnd st (peer y))) as [|it rest] eqn:Efwd; [discriminate|].
+  destruct (PacketData_Serialize (f_pkt it)) as [[bytes|]|]; try discriminate.
+  destruct (negb (zlist_eqb bytes b)); [discriminate|].
+  destruct (negb _); [discriminate|].
+  destruct o.
+  - apply dlift_ok in H. destruct H as (d' & Hstep & H). injection H as <-.
+    apply (MI_set_dsnd_quiet _ (peer y) (DFwd Drop)); [apply MI_set_stage; exact Hinv|reflexivity|].
+    rewrite dsnd_set_stage. exact Hstep.
+  - injection H as <-. apply MI_set_stage; exact Hinv.
+  - injection H as <-. apply MI_set_stage; exact Hinv.
+Qed.
+
 Lemma mstep_snap st x n s base top recv st' : MI st -> mstep st (MSnap x n s base top recv) = MOk st' -> MI st'.
 Proof.
   intros Hinv H. unfold mstep in H. cbv zeta in H.
@@ -534,6 +551,7 @@ Proof.
   - exact (mstep_tx _ _ _ _ Hinv H).
   - exact (mstep_ch _ _ _ _ Hinv H).
   - exact (mstep_rx _ _ _ _ Hinv H).
+  - exact (mstep_rx_refused _ _ _ _ Hinv H).
   - exact (mstep_snap _ _ _ _ _ _ _ _ Hinv H).
 Qed.
 
